@@ -8,7 +8,7 @@ import CTV.Lemmas.SigScheme
 
 Theorems over `CTV.SigV.verifySignature` / `newVerifier` / `verifySCT` / `verifySTH` / `newFromSignedJSON`, which
 interpret the tables and conditions **regenerated** on every run from tls/signature.go, signatures.go and
-loglist3/loglist3.go (`CTV.Gen.Sig`), over the strict-DER fragment `CTV.DerSig` and over the RFC 6962 signature
+loglist3/loglist3.go (`CTV.Gen.Sig`), over the strict-DER fragment `CTV.Der` and over the RFC 6962 signature
 inputs `CTV.SigInput`.  The primitives are a parameter `P : Prims` about which nothing is assumed; `Scheme.correct`
 is a hypothesis of the sign-then-verify corollaries only.  All quantifiers range over all keys, codes, messages
 and signature octets.
@@ -70,7 +70,7 @@ example : verifySignature ⟨fun _ m => m, fun _ _ _ v => v == .pair 1 1⟩ { ki
 example : verifySignature ⟨fun _ m => m, fun _ _ _ _ => false⟩ { kind := .ecdsa } [7] ⟨4, 3, [0x30, 6, 2, 1, 1, 2, 1, 1]⟩ = .err := by decide
 example : rfcHash 4 = some 5 ∧ (derInt 1 ++ derInt 1 ++ []).length < 2^31 ∧ derSigX 1 1 [] ++ [9] = [0x30, 6, 2, 1, 1, 2, 1, 1, 9] := by decide
 
-/-- the strict-DER reader of `CTV.DerSig` accepts exactly the canonical encodings: `parseSigPair sig = some ⟨r, s, extra, rest⟩`
+/-- the strict-DER reader of `CTV.Der` accepts exactly the canonical encodings: `parseSigPair sig = some ⟨r, s, extra, rest⟩`
 iff `sig` is `30 len(02 len r, 02 len s, extra)` in minimal-length, minimal-two's-complement form followed by `rest`
 (and the SEQUENCE content is shorter than 2^31, the fork's limit).  So zero-padded, non-minimal-length, indefinite,
 truncated or wrongly tagged encodings are refused, and the integers read are the integers encoded. -/
